@@ -242,8 +242,8 @@ pub fn generate<M: Machine>(property: &str, verif_seed: u64, run: u64, size: Siz
     if M::FAMILY == Family::Count {
         family = r.below(10) as u8;
     }
-    if M::FAMILY == Family::Sum && r.chance(0.2) {
-        family = *r.pick(&[FAM_TINY, FAM_HUGE, FAM_VANISHING]);
+    if M::FAMILY == Family::Sum && r.chance(0.3) {
+        family = *r.pick(&[FAM_TINY, FAM_HUGE, FAM_VANISHING, FAM_NEAR_UNDERFLOW, FAM_NEAR_UNDERFLOW]);
     }
     let exact_data = family == FAM_EXACT && !positive && flt != Flt::Int;
     let max_len = match size {
@@ -267,7 +267,7 @@ pub fn generate<M: Machine>(property: &str, verif_seed: u64, run: u64, size: Siz
     } else {
         0
     };
-    let scale_exp = if flt == Flt::Int || family == FAM_TINY || family == FAM_HUGE { 0 } else { r.range(-20, 20) as i32 };
+    let scale_exp = if flt == Flt::Int || family == FAM_TINY || family == FAM_HUGE || family == FAM_NEAR_UNDERFLOW { 0 } else { r.range(-20, 20) as i32 };
     let fam1 = if M::STREAMS == 2 && !exact_data { pick_family(&mut r, false) } else { family };
     let tapes = [
         TapeSpec::Gen { family, seed: r.next_u64(), len: len0 as u32, flt, positive, scale_exp },
@@ -293,7 +293,7 @@ pub fn generate<M: Machine>(property: &str, verif_seed: u64, run: u64, size: Siz
     let w_fork = *r.pick(&[0u32, 0, 1, 2]);
     let w_query = *r.pick(&[0u32, 1, 1, 2]);
     let knobs = json!({
-        "family": [FAMILY_NAMES[family as usize % 13], FAMILY_NAMES[fam1 as usize % 13]],
+        "family": [FAMILY_NAMES[family as usize % 14], FAMILY_NAMES[fam1 as usize % 14]],
         "workers": n_workers, "chunk_law": CHUNK_LAWS[chunk_law], "merge_policy": MERGE_POLICIES[merge_policy],
         "styles": styles.iter().map(|&s| M::style_name(s)).collect::<Vec<_>>(),
         "merge_ops": ops, "weights": [w_deliver, w_merge, w_empty, w_fork, w_query],
